@@ -98,7 +98,8 @@ prop("C16", "exploration",
           "a new observation hash")
 
 prop("C11", "exploration",
-     quick=[("mixed_audit", "fast", 900), ("crates_audit", "fast", 700), ("members_audit", "fast", 500), ("table_audit", "fast", 500)],
+     quick=[("mixed_audit", "fast", 900), ("crates_audit", "fast", 700), ("members_audit", "fast", 500), ("table_audit", "fast", 500),
+            ("tracks_audit", "fast", 600)],
      thorough=[("mixed_audit", "fast", 40000), ("crates_audit", "fast", 40000), ("members_audit", "fast", 30000),
                ("tracks_audit", "fast", 20000), ("table_audit", "fast", 30000)],
      relevant=["audits"],
